@@ -61,6 +61,7 @@ theorem lin_congr : (e : Expr) → LinOnce e = true → ∀ ρ ρ' : Env,
   | .upper _, h => by simp [LinOnce] at h
   | .lower _, h => by simp [LinOnce] at h
   | .cref _, h => by simp [LinOnce] at h
+  | .vref _, h => by simp [LinOnce] at h
 theorem linList_congr : (es : List Expr) → LinOnceList es = true → ∀ ρ ρ' : Env,
     (∀ id ∈ ivarsList es, ρ.i id = ρ'.i id) →
     evalList ρ es = evalList ρ' es ∧ (EnvOkList ρ es → EnvOkList ρ' es)
@@ -349,6 +350,7 @@ theorem tight_aux : (e : Expr) → LinOnce e = true →
   | .upper _, h => by simp [LinOnce] at h
   | .lower _, h => by simp [LinOnce] at h
   | .cref _, h => by simp [LinOnce] at h
+  | .vref _, h => by simp [LinOnce] at h
 theorem tightList_aux : (es : List Expr) → LinOnceList es = true →
     ∃ avs, absList es = some (avs.map .int) ∧ (∀ a ∈ avs, InvS a) ∧ TightList es avs
   | [], _ =>
